@@ -237,7 +237,9 @@ def _sess_case(draw, tier):
     mode = draw(st.sampled_from(["disable", "ci", "xdist", "xfail", "vector"]))
     wrong = draw(st.lists(st.booleans(), min_size=len(vals), max_size=len(vals)))
     civar = draw(st.sampled_from(["CI", "GITHUB_ACTIONS", "TRAVIS", "BUILD_ID", "TEAMCITY_VERSION"]))
-    return {"vals": vals, "mode": mode, "wrong": wrong, "civar": civar}
+    # the xfail marker may sit on the function, on the class or on the module
+    return {"vals": vals, "mode": mode, "wrong": wrong, "civar": civar,
+            "xfail_at": draw(st.sampled_from(["func", "class", "module"]))}
 
 
 def check_sessions(case):
@@ -248,13 +250,22 @@ def check_sessions(case):
             stored = gv.natural(d) if not w else gv.natural(["list", [d, ["int", 1]]])
             lines += [f"def test_{i}():", f"    assert {gv.render(d)} == snapshot({stored})", ""]
     else:
+        at = case.get("xfail_at", "func") if mode == "xfail" else None
+        ind = ""
+        if at == "module":
+            lines += ["pytestmark = pytest.mark.xfail(reason='module')", ""]
+        if at == "class":
+            lines += ["@pytest.mark.xfail", "class TestX:"]
+            ind = "    "
         for i, d in enumerate(case["vals"]):
-            if mode == "xfail":
+            if at == "func":
                 lines.append("@pytest.mark.xfail")
-            lines += [f"def test_{i}():", f"    v = {gv.render(d)}", "    s = snapshot(v)",
-                      "    assert s is v, type(s)"]
+            arg = "self" if at == "class" else ""
+            lines += [f"{ind}def test_{i}({arg}):", f"{ind}    v = {gv.render(d)}", f"{ind}    s = snapshot(v)",
+                      f"{ind}    open('ident.log', 'a').write(str(s is v) + '\\n')",
+                      f"{ind}    assert s is v, type(s)"]
             if mode == "xfail":
-                lines.append("    assert False")
+                lines.append(f"{ind}    assert False")
             lines.append("")
     src = "\n".join(lines) + "\n"
     d = drivers.make_project({"test_a.py": src})
@@ -275,6 +286,10 @@ def check_sessions(case):
             elif mode == "xdist":
                 args = ["-n", "2"]
             r = drivers.run_pytest(d, args, env=env)
+            ident = (d / "ident.log").read_text().split() if (d / "ident.log").exists() else []
+            if len(ident) != len(case["vals"]) or any(x != "True" for x in ident):
+                raise Violation(f"not-identity:{mode}:{case.get('xfail_at', '')}" if mode == "xfail" else f"not-identity:{mode}",
+                                f"`snapshot(v) is v` gave {ident}\n{src}\n{r.stdout[-1500:]}")
             if mode == "xfail":
                 bad = {k: v for k, v in r.outcomes.items() if v != "skipped"}  # xfailed is reported as skipped in junit
                 if bad or not r.outcomes:
